@@ -40,7 +40,7 @@ def witnesses(run: core.Run, stats: Counter):
             stats["witness_pass"] += 1
             continue
         if f is not None and f.get("status") == "open":
-            run.known(fid, f"{wid}: {d}")
+            run.known(fid, f"{wid}: {d}".replace("\n", " "))
         elif f is None and entry.get("owner") not in (None, "C03", "C04"):
             stats[f"witness_unlisted_{fid}"] += 1
         else:
@@ -73,7 +73,7 @@ def main(run: core.Run) -> None:
 
     witnesses(run, stats)
 
-    drift = core.fingerprint_drift("C04", "onnxscript/optimizer/_constant_folding.py", R.FINGERPRINTED)
+    drift = R.fingerprint_drift()
     run.coverage["fingerprint_drift"] = drift
     n_models = run.size(1200, 12000)
     if drift and run.tier == "quick":
